@@ -208,8 +208,8 @@ def run(ctx):
             lambda: ctx.tlc("MC_Present", consts={"StrLen": 6, "OctLen": 4}, workers=4, timeout=1800),
             lambda: ctx.tlc("MC_Zone", consts=dict(MaxLines=3, ShapeSet=MID_SHAPES, PolSet="{0, 15}"), workers=6, timeout=6000, xmx="12g"),   # 178 k states
             lambda: ctx.tlc("MC_Zone", consts=dict(MaxLines=2, ShapeSet=ALL_SHAPES, PolSet="{0, 15, 9, 6}"), workers=2, timeout=6000),            # 40 k states
-            lambda: ctx.tlc("MC_Zone", consts=dict(MaxLines=6, ShapeSet=ALL_SHAPES, PolSet="{0, 15, 9, 6}"), workers=2, timeout=600,
-                            simulate="num=300", depth=7),       # longer random behaviours (bounded by the outer time-out)
+            lambda: ctx.tlc("MC_Zone", consts=dict(MaxLines=6, ShapeSet=ALL_SHAPES, PolSet="{0, 15, 9, 6}"), workers=2, timeout=1800,
+                            simulate="num=30", depth=7),        # longer random behaviours
             G("gen", 0, 1, [0]), G("file", 0, 1, [0], cases=QUIRKS),
         ]
         jobs += [G("seq", 2, 4, [k]) for k in range(4)]
